@@ -104,6 +104,7 @@ func checkC06(c *Ctx) {
 	c.NotCovered("marks that should exist although nothing was evaluated (zero iterations of a marked for_each)")
 	c.NotCovered("the non-interference property itself: the discipline is necessary, not sufficient")
 	c.Trust("go-cty v1.16.3 operations propagate the marks of their operands to their results (WithMarks, WithSameMarks, Index, GetAttr, arithmetic, convert, function.Call)")
+	c06MarksAccumulate(c)
 }
 
 func posOfSrc(c *Ctx, s *flowSrc) string {
@@ -233,4 +234,83 @@ func c06BodyMarks(c *Ctx) {
 		}
 	}
 	c.Floor("bodymarks sites", n, 6, "BlockSpec, BlockListSpec, BlockTupleSpec, BlockSetSpec, BlockMapSpec, BlockObjectSpec")
+}
+
+// marks.accumulate: marks gathered in a loop are accumulated, never overwritten.
+func c06MarksAccumulate(c *Ctx) {
+	c.Rule("marks.accumulate: in hcl, hclsyntax, json, hcldec, ext/dynblock, a loop-carried variable of type cty.ValueMarks or []cty.ValueMarks that is read after the loop changes round the loop only by accumulation (append to itself, or the same map updated in place): an assignment that replaces it keeps only the marks of the last item and loses those of the earlier ones")
+	n := 0
+	for _, fn := range c.P.pkgFuncs("hcl", "hclsyntax", "json", "hcldec", "ext/dynblock") {
+		for _, b := range fn.Blocks {
+			for _, ins := range b.Instrs {
+				ph, ok := ins.(*ssa.Phi)
+				if !ok {
+					break
+				}
+				t := ph.Type()
+				isMarks := isNamedIn(t, "github.com/zclconf/go-cty/cty", "ValueMarks")
+				if sl, ok := t.Underlying().(*types.Slice); ok && isNamedIn(sl.Elem(), "github.com/zclconf/go-cty/cty", "ValueMarks") {
+					isMarks = true
+				}
+				if !isMarks {
+					continue
+				}
+				var back []int
+				for i, p := range b.Preds {
+					if b.Dominates(p) {
+						back = append(back, i)
+					}
+				}
+				if len(back) == 0 {
+					continue
+				}
+				// read after the loop?
+				usedOutside := false
+				for _, r := range *ph.Referrers() {
+					if r.Block() != nil && !b.Dominates(r.Block()) {
+						usedOutside = true
+					}
+					if _, isDbg := r.(*ssa.DebugRef); !isDbg && r.Block() != nil && r.Block() != b {
+						usedOutside = true
+					}
+				}
+				if !usedOutside {
+					continue
+				}
+				var derives func(v ssa.Value, d int) bool
+				derives = func(v ssa.Value, d int) bool {
+					if v == ssa.Value(ph) {
+						return true
+					}
+					if d > 8 {
+						return false
+					}
+					switch x := v.(type) {
+					case *ssa.Call:
+						if bi, ok := x.Call.Value.(*ssa.Builtin); ok && bi.Name() == "append" {
+							return derives(x.Call.Args[0], d+1)
+						}
+					case *ssa.Phi:
+						for _, e := range x.Edges {
+							if e != ssa.Value(x) && !derives(e, d+1) {
+								return false
+							}
+						}
+						return true
+					case *ssa.ChangeType:
+						return derives(x.X, d+1)
+					}
+					return false
+				}
+				for _, i := range back {
+					n++
+					c.Sites++
+					c.Fn(FuncName(fn))
+					c.Check(derives(ph.Edges[i], 0), "marks.accumulate", fmt.Sprintf("%s:loop[%s]", FuncName(fn), ph.Comment), ph.Pos(), "accumulated",
+						"the marks variable `"+ph.Comment+"` is replaced, not extended, on a path round the loop: only the marks of the last item survive, a result that depends on an earlier marked item is returned without that mark")
+				}
+			}
+		}
+	}
+	c.Floor("marks.accumulate loops", n, 2, "mark accumulators of the for/object/template evaluators")
 }
